@@ -1130,3 +1130,16 @@ Section Naming.
     - exact Hser.
   Qed.
 End Naming.
+
+(* the subscription path sends exactly the variables the HTTP path sends *)
+Lemma ws_same_variables_as_http ser n S snake nm vs kwargs :
+  call_subscribe ser n S snake nm vs kwargs = call_method ser n S snake nm vs kwargs.
+Proof.
+  unfold call_subscribe, call_method.
+  destruct (generate S nm vs) as [g|]; [|reflexivity].
+  destruct (negb (sig_ok g)); [reflexivity|].
+  destruct (bind (g_params g) kwargs) as [env0|]; [|reflexivity].
+  destruct (assoc "gql" env0); [reflexivity|].
+  destruct (eval_dict ser ((hd "query" (variable_names g), query_text) :: env0) (g_dict g)) as [[|e d]|];
+    reflexivity.
+Qed.
